@@ -199,16 +199,19 @@ class ConnectionPool(object):
 
         _logger.debug('Check out %s', key)
 
-        connection = yield from host_pool.acquire()
+        try:
+            connection = yield from host_pool.acquire()
+        finally:
+            # No lock (and so no suspension point) here: a cancellation
+            # must neither skip this nor strand the connection in busy.
+            self._host_pool_waiters[key] -= 1
+
         connection.key = key
 
         # TODO: Verify this assert is always true
         # assert host_pool.count() <= host_pool.max_connections
         # assert key in self._host_pools
         # assert self._host_pools[key] == host_pool
-
-        with (yield from self._host_pools_lock):
-            self._host_pool_waiters[key] -= 1
 
         return connection
 
